@@ -340,9 +340,6 @@ def dictionary(ctx):
             items[name] = (const_piece if rng.random() < 0.6 else callable_piece)(
                 rng, spec, nvdim, dtype)
     dkind = gen.pick(rng, ["const", "const", "callable", "none"])
-    covered = np.zeros(n, dtype=bool)
-    for name in items:
-        covered |= H.box_mask(n, *boxes[name])
     if dkind != "none":
         items["default"] = (const_piece if dkind == "const" else callable_piece)(
             rng, spec, nvdim, dtype)
